@@ -254,7 +254,8 @@ func RelPaths(r *rand.Rand, root ref.V, paths []Path, max int) []Path {
 				g = ref.Seg{Kind: ref.SIndex, Idx: -k}
 			}
 		case 1:
-			g = ref.Seg{Kind: ref.SSlice, Lo: ref.I64(-k)}
+			// (a tail longer than the value is the whole value)
+			g = ref.Seg{Kind: ref.SSlice, Lo: ref.I64(-(k + r.Int64N(3)))}
 		case 2:
 			g = ref.Seg{Kind: ref.SSlice, Lo: ref.I64(r.Int64N(n))}
 		default:
